@@ -55,6 +55,24 @@ func classifyC19(c c19Case) ev.Class {
 			labels = append(labels, "subdirectory")
 		}
 	}
+	for _, f := range c.P.Files {
+		for _, d := range f.Decls {
+			if d.Kind != "scope" {
+				continue
+			}
+			fs := map[int]bool{}
+			for _, o := range d.Ops {
+				walkType(o.Type, func(x *Type) {
+					if x.Kind == "ref" && c.P.Files[x.File] != f {
+						fs[x.File] = true
+					}
+				})
+			}
+			if len(fs) >= 2 {
+				labels = append(labels, "scope-references>=2-includes")
+			}
+		}
+	}
 	nt := len(c.P.Files) >= 3 && (kinds["service"]+kinds["scope"] >= 2) || incl >= 3
 	texts, _ := Render(c.P, c.Lex)
 	var all []string
